@@ -54,22 +54,24 @@ func VH_C18_SignedExchangeSerializers() {
 	pi := structuredheader.ParameterisedIdentifier{Label: "l", Params: structuredheader.Parameters{"b": int64(1), "a": vh.Bytes("pb", 2), "c": "s"}}
 
 	run := func(x *Exchange, which int) []byte {
-		var w vh.Sink
-		switch which {
-		case 0:
-			vh.Assume(x.Write(&w) == nil)
-		case 1:
-			vh.Assume(x.DumpExchangeHeaders(&w) == nil)
-		case 2:
-			m, err := serializeSignedMessage(x, certSha, "https://example.org/v", 5, 6)
-			vh.Assume(err == nil)
-			return m
-		case 3:
+		// vh.Isolated: the engine's write-set recorder reports ANY store into memory that existed before the call
+		out, err := vh.Isolated(func() ([]byte, error) {
+			var w vh.Sink
+			switch which {
+			case 0:
+				err := x.Write(&w)
+				return w.B, err
+			case 1:
+				err := x.DumpExchangeHeaders(&w)
+				return w.B, err
+			case 2:
+				return serializeSignedMessage(x, certSha, "https://example.org/v", 5, 6)
+			}
 			s, err := pi.String()
-			vh.Assume(err == nil)
-			return []byte(s)
-		}
-		return w.B
+			return []byte(s), err
+		})
+		vh.Assume(err == nil)
+		return out
 	}
 	which := vh.Choose(4)
 	statefulBefore, uncachedBefore := len(statefulRequestHeadersSet), len(uncachedHeadersSet)
